@@ -84,7 +84,15 @@ func reply(rng interface{ Intn(int) int }, n int) (text string, certs []ssh.Publ
 		certs = append(certs, c)
 		comments = append(comments, comment)
 	}
-	return sb.String(), certs, comments
+	text = sb.String()
+	// a reply need not end in a line feed (nor in exactly one)
+	switch rng.Intn(5) {
+	case 0:
+		text = strings.TrimRight(text, "\n")
+	case 1:
+		text += "\n\n"
+	}
+	return text, certs, comments
 }
 
 func main() {
@@ -736,6 +744,37 @@ func signing(r *ev.Run) {
 		}
 	}
 	// unusual but accepted per-try timeouts (negative = "not set"): healthy endpoints must still be asked, in order.
+	// large but valid settings: years per try, hundreds of millions of retries (nothing is multiplied out of range)
+	for vi, lg := range []struct {
+		pt      time.Duration
+		retries uint
+	}{{876000 * time.Hour, 3}, {5 * time.Second, 700000000}, {1<<63 - 1, 2}, {time.Hour, 1 << 31}} {
+		c := r.Case("sign-large-settings", vi)
+		if c == nil {
+			continue
+		}
+		text, want, _ := reply(c.Rand, 1)
+		for _, ip := range ips {
+			byIP[ip].Set(func(context.Context, *proto.SSHCertificateSigningRequest) (*proto.SSHKey, error) {
+				return &proto.SSHKey{Key: text}, nil
+			})
+		}
+		r.Eval(1)
+		signer, err := crypki.NewSigner(crypki.SignerConfig{TLSClientKeyFile: clientKey, TLSClientCertFile: clientCert, TLSCACertFiles: []string{caPath}, CrypkiEndpoints: []string{ips[0], ips[1]}, CrypkiPort: uint(port), Retries: lg.retries, PerTryTimeout: lg.pt})
+		if err != nil {
+			r.Count("large settings refused by NewSigner", 1)
+			continue
+		}
+		ctx, cancel := context.WithTimeout(context.Background(), 60*time.Second)
+		certs, _, serr := signer.Sign(ctx, &proto.SSHCertificateSigningRequest{KeyMeta: &proto.KeyMeta{Identifier: "x"}, Principals: []string{"a"}, PublicKey: "k", Validity: 60})
+		cancel()
+		if serr != nil || len(certs) != 1 || string(certs[0].Marshal()) != string(want[0].Marshal()) || len(byIP[ips[0]].Calls()) != 1 || len(byIP[ips[1]].Calls()) != 0 {
+			r.Violation(c, "healthy-first-endpoint-not-used:large-settings", fmt.Sprintf("per_try_timeout=%v retries=%d: err=%v certs=%d; endpoints received %d and %d requests", lg.pt, lg.retries, serr, len(certs), len(byIP[ips[0]].Calls()), len(byIP[ips[1]].Calls())), nil)
+		} else {
+			r.Count("large retry settings -> first healthy endpoint signs", 1)
+		}
+		r.Nontrivial(fmt.Sprintf("large-settings:%d", vi))
+	}
 	for vi, pt := range []time.Duration{-time.Second, -1, -1 << 62} {
 		c := r.Case("sign-odd-per-try", vi)
 		if c == nil {
